@@ -155,7 +155,170 @@ pub async fn upload_cases(rep: &mut Report, rng: &mut Rng, n: usize) -> anyhow::
             }
             if correct { for p in &found { if let Ok(bytes) = std::fs::read(p) { if bytes != body { rep.spec_fail("c17-accepted-upload-stored-other-bytes", json!({}), "stored upload differs from the body"); } } } }
         }
+        // the move and delete routes on the accepted blob: whatever is requested, every file the server holds for this
+        // account afterwards must be named by the SHA-256 of its bytes, and a move to the same name must really move it
+        {
+            let listing = |live: &crate::auth::Live| -> Vec<(String, Vec<u8>)> {
+                fn walk(d: &std::path::Path, out: &mut Vec<std::path::PathBuf>) { if let Ok(rd) = std::fs::read_dir(d) { for e in rd.flatten() { let p = e.path(); if p.is_dir() { walk(&p, out); } else { out.push(p); } } } }
+                let mut all = vec![]; walk(&server_files_dir(live), &mut all);
+                all.into_iter().filter(|p| { let s = p.display().to_string(); s.contains("/files/") || s.contains("/blobs/") }).filter_map(|p| std::fs::read(&p).ok().map(|b| (p.display().to_string(), b))).collect()
+            };
+            let other_name = hex::encode(sha256(b"some other bytes"));
+            let (v2, s2) = (uuid::Uuid::new_v4(), uuid::Uuid::new_v4());
+            let requests: Vec<(&str, String)> = vec![
+                ("move-to-another-name", format!("vault_id={vault}&secret_id={secret}&name={other_name}")),
+                ("move-to-another-name-elsewhere", format!("vault_id={v2}&secret_id={s2}&name={other_name}")),
+                ("move-same-name", format!("vault_id={v2}&secret_id={s2}&name={name}")),
+            ];
+            let mut at = path.clone();
+            for (what, q) in requests {
+                let tok = token(&acct.signer, format!("/api/v1{at}").as_bytes()).await;
+                let code = http.post(format!("{base}{at}?connection_id=verif&{q}")).header("X-SOS-ACCOUNT-ID", acct.id.to_string()).header("Authorization", format!("Bearer {tok}")).send().await.map(|r| r.status().as_u16()).unwrap_or(0);
+                rep.case(&format!("server-move:{what}:{}", body.len()), true);
+                rep.count(&format!("server-move:{what}:{code}"));
+                let files = listing(&live);
+                for (p, b) in &files {
+                    let fname = p.rsplit('/').next().unwrap_or("");
+                    if fname.len() == 64 && fname != hex::encode(sha256(b)) {
+                        rep.spec_fail(&format!("c17-server-holds-file-not-named-by-its-digest-after-{what}"), json!({"status": code, "file": p}), "after a move request the server holds a file whose name is not the SHA-256 of its bytes");
+                    }
+                }
+                if what == "move-same-name" {
+                    let moved = files.iter().any(|(p, b)| p.contains(&s2.to_string()) && p.ends_with(&name) && b == &body);
+                    let stayed = files.iter().any(|(p, _)| p.contains(&secret.to_string()) && p.ends_with(&name));
+                    if !(200..300).contains(&code) || !moved || stayed { rep.spec_fail("c17-server-move-does-not-move", json!({"status": code, "moved": moved, "stayed": stayed}), "a move of an uploaded file to another folder / secret under the same name did not move it"); }
+                    else { at = format!("/sync/file/{v2}/{s2}/{name}"); }
+                }
+            }
+            // delete: gone afterwards
+            let tok = token(&acct.signer, format!("/api/v1{at}").as_bytes()).await;
+            let code = http.delete(format!("{base}{at}?connection_id=verif")).header("X-SOS-ACCOUNT-ID", acct.id.to_string()).header("Authorization", format!("Bearer {tok}")).send().await.map(|r| r.status().as_u16()).unwrap_or(0);
+            rep.count(&format!("server-delete:{code}"));
+            if listing(&live).iter().any(|(p, _)| p.ends_with(&name)) { rep.spec_fail("c17-server-delete-leaves-file", json!({"status": code}), "a deleted file is still on the server"); }
+        }
     }
+    live.handle.shutdown();
+    Ok(())
+}
+
+/// Two network devices and a live server: a file secret made on one device reaches the server and the second device;
+/// after the first device deletes (or moves) the secret and everybody synced, the blobs on every replica must be exactly
+/// the files named by replaying the file event log.
+pub async fn transfer_case(rep: &mut Report, seed: u64, action: &str) -> anyhow::Result<()> {
+    use crate::auth::start_server;
+    use sos_backend::BackendTarget;
+    use sos_core::{crypto::AccessKey, Origin, Paths};
+    use sos_net::{pairing::{AcceptPairing, OfferPairing}, NetworkAccount};
+    use sos_protocol::AccountSync;
+    use sos_sync::StorageEventLogs;
+    let live = start_server(None).await?;
+    let url: url::Url = format!("http://{}:{}", live.addr.ip(), live.addr.port()).parse()?;
+    let origin = Origin::new("verif".to_string(), url.clone());
+    let base = std::path::Path::new("/verif/run/tmp");
+    let t1 = tempfile::Builder::new().prefix("xfer-a").tempdir_in(base)?;
+    let t2 = tempfile::Builder::new().prefix("xfer-b").tempdir_in(base)?;
+    let p1 = Paths::new_client(t1.path()); Paths::scaffold(p1.documents_dir()).await?;
+    let p2 = Paths::new_client(t2.path()); Paths::scaffold(p2.documents_dir()).await?;
+    let password: secrecy::SecretString = format!("pw-{seed:016x}-transfer-verif").into();
+    let key: AccessKey = password.clone().into();
+    let mut owner = NetworkAccount::new_account("transfers".to_string(), password.clone(), BackendTarget::FileSystem(p1), Default::default()).await?;
+    owner.sign_in(&key).await?;
+    owner.add_server(origin.clone()).await?;
+    let default = *owner.default_folder().await.ok_or_else(|| anyhow::anyhow!("no default folder"))?.id();
+    let other = *owner.create_folder(NewFolderOptions::new("second".to_string())).await?.folder.id();
+    let server_dir = live._tmp.path().join("data");
+    fn blobs_under(dir: &std::path::Path) -> Vec<String> {
+        fn walk(d: &std::path::Path, out: &mut Vec<std::path::PathBuf>) { if let Ok(rd) = std::fs::read_dir(d) { for e in rd.flatten() { let p = e.path(); if p.is_dir() { walk(&p, out); } else { out.push(p); } } } }
+        let mut all = vec![]; walk(dir, &mut all);
+        let mut v: Vec<String> = all.into_iter().filter(|p| { let s = p.display().to_string(); (s.contains("/files/") || s.contains("/blobs/")) && p.file_name().map(|n| n.len() == 64).unwrap_or(false) })
+            .map(|p| { let s = p.display().to_string(); let parts: Vec<&str> = s.rsplit('/').take(3).collect(); format!("{}/{}/{}", parts[2], parts[1], parts[0]) }).collect();
+        v.sort(); v
+    }
+    async fn wait_for(mut f: impl FnMut() -> bool, secs: u64) -> bool { for _ in 0..(secs * 10) { if f() { return true; } tokio::time::sleep(std::time::Duration::from_millis(100)).await; } f() }
+    // the file secret: made before the second device exists ("enroll-later") or after it was paired
+    let body: Vec<u8> = format!("transfer case {seed} {action} ").into_bytes().into_iter().cycle().take(3000).collect();
+    let src = t1.path().join("source.bin"); std::fs::write(&src, &body)?;
+    let mut made_id = None;
+    if action == "enroll-later" {
+        let secret: sos_vault::secret::Secret = src.clone().try_into()?;
+        let meta = sos_vault::secret::SecretMeta::new("transferred".into(), secret.kind());
+        made_id = Some(owner.create_secret(meta, secret, AccessOptions { folder: Some(default), ..Default::default() }).await?.id);
+        if let Some(e) = owner.sync().await.first_error() { anyhow::bail!("owner sync: {e}"); }
+        let uploaded = wait_for(|| !blobs_under(&server_dir).is_empty(), 30).await;
+        rep.count(&format!("transfer:{action}:uploaded:{uploaded}"));
+    } else if let Some(e) = owner.sync().await.first_error() { anyhow::bail!("owner sync: {e}"); }
+    // second device by pairing
+    let device_meta: sos_core::device::DeviceMetaData = Default::default();
+    let mut second = {
+        let (_otx, offer_rx) = tokio::sync::mpsc::channel::<()>(1);
+        let (_atx, accept_rx) = tokio::sync::mpsc::channel::<()>(1);
+        let (mut offer, offer_stream) = OfferPairing::new(&mut owner, url.clone()).await?;
+        let share = offer.share_url().clone();
+        let (mut accept, accept_stream) = AcceptPairing::new(share, &device_meta, BackendTarget::FileSystem(p2), Default::default()).await?;
+        let (a, b) = tokio::join!(offer.run(offer_stream, offer_rx), accept.run(accept_stream, accept_rx));
+        a.map_err(|e| anyhow::anyhow!("offer: {e}"))?; b.map_err(|e| anyhow::anyhow!("accept: {e}"))?;
+        let mut enrollment = accept.take_enrollment()?;
+        enrollment.fetch_account().await?;
+        enrollment.finish(&key).await?
+    };
+    if let Some(e) = owner.sync().await.first_error() { anyhow::bail!("owner sync after pairing: {e}"); }
+    if let Some(e) = second.sync().await.first_error() { anyhow::bail!("second device sync: {e}"); }
+    if action != "enroll-later" {
+        let secret: sos_vault::secret::Secret = src.clone().try_into()?;
+        let meta = sos_vault::secret::SecretMeta::new("transferred".into(), secret.kind());
+        made_id = Some(owner.create_secret(meta, secret, AccessOptions { folder: Some(default), ..Default::default() }).await?.id);
+        if let Some(e) = owner.sync().await.first_error() { anyhow::bail!("owner sync: {e}"); }
+        let uploaded = wait_for(|| !blobs_under(&server_dir).is_empty(), 30).await;
+        rep.count(&format!("transfer:{action}:uploaded:{uploaded}"));
+        if let Some(e) = second.sync().await.first_error() { anyhow::bail!("second device sync: {e}"); }
+    }
+    // a device that holds the file log entry but not the blob: the explicit transfer sync compares file sets with the server
+    let _ = second.sync_file_transfers(&Default::default()).await;
+    let downloaded = wait_for(|| !blobs_under(t2.path()).is_empty(), 30).await;
+    rep.count(&format!("transfer:{action}:downloaded-on-second-device:{downloaded}"));
+    let made = made_id.unwrap();
+    if !downloaded {
+        rep.spec_fail(&format!("c17-blob-missing-on-synced-device-{}", if action == "enroll-later" { "enrolled-after-the-file-was-made" } else { "connected-before-the-file-was-made" }), json!({"case_seed": seed, "action": action}), "a file named by the second device's file log is on the server but its blob never reaches the second device");
+    }
+    if action == "enroll-later" {
+        rep.case(&format!("transfer:{action}:{seed}"), true);
+        let _ = owner.sign_out().await; let _ = second.sign_out().await;
+        live.handle.shutdown();
+        return Ok(());
+    }
+    // the action on the first device
+    match action {
+        "delete" => { owner.delete_secret(&made, AccessOptions { folder: Some(default), ..Default::default() }).await?; }
+        _ => { owner.move_secret(&made, &default, &other, Default::default()).await?; }
+    }
+    for _ in 0..2 {
+        if let Some(e) = owner.sync().await.first_error() { anyhow::bail!("owner sync after {action}: {e}"); }
+        tokio::time::sleep(std::time::Duration::from_millis(500)).await;
+        if let Some(e) = second.sync().await.first_error() { anyhow::bail!("second sync after {action}: {e}"); }
+        let _ = owner.sync_file_transfers(&Default::default()).await;
+        let _ = second.sync_file_transfers(&Default::default()).await;
+    }
+    // let the transfers settle: wait until nothing changes for a while (at most 20 s)
+    let mut last = (blobs_under(&server_dir), blobs_under(t1.path()), blobs_under(t2.path())); let mut stable = 0;
+    for _ in 0..200 { tokio::time::sleep(std::time::Duration::from_millis(100)).await; let now = (blobs_under(&server_dir), blobs_under(t1.path()), blobs_under(t2.path())); if now == last { stable += 1; if stable >= 30 { break; } } else { stable = 0; last = now; } }
+    // expected: the files named by replaying the file log (the same on every replica after the syncs)
+    async fn replay(a: &NetworkAccount) -> Result<Vec<String>, String> {
+        let log = a.file_log().await.map_err(|e| e.to_string())?; let l = log.read().await;
+        let files = sos_reducers::FileReducer::new(&*l).reduce(None).await.map_err(|e| e.to_string())?;
+        let mut v: Vec<String> = files.iter().map(|f| format!("{}/{}/{}", f.vault_id(), f.secret_id(), f.file_name())).collect(); v.sort(); Ok(v)
+    }
+    let want1 = replay(&owner).await.map_err(|e| anyhow::anyhow!(e))?;
+    let want2 = replay(&second).await.map_err(|e| anyhow::anyhow!(e))?;
+    rep.case(&format!("transfer:{action}:{seed}"), true);
+    for (who, dir, want) in [("first-device", t1.path().to_path_buf(), &want1), ("second-device", t2.path().to_path_buf(), &want2), ("server", server_dir.clone(), &want1)] {
+        let have = blobs_under(&dir);
+        if &have != want {
+            let class = if have.len() > want.len() { "left-behind" } else if have.len() < want.len() { "missing" } else { "under-another-path" };
+            rep.spec_fail(&format!("c17-blob-{class}-on-{who}-after-remote-{action}"), json!({"case_seed": seed, "action": action, "have": have, "file_log_names": want}), "after the transfers settled the blobs on a replica are not the files named by replaying the file event log");
+        }
+    }
+    if want1 != want2 { rep.spec_fail("c17-file-logs-differ-after-sync", json!({"case_seed": seed, "first": want1, "second": want2}), "the two devices replay different file sets"); }
+    let _ = owner.sign_out().await; let _ = second.sign_out().await;
     live.handle.shutdown();
     Ok(())
 }
@@ -178,6 +341,15 @@ pub fn run(cli: &Cli) {
     if let Err(e) = rt.block_on(upload_cases(&mut rep, &mut rng, if cli.tier == "thorough" { 40 } else { 6 })) {
         rep.spec_fail("c17-harness-aborted", json!({"part": "upload"}), &e.to_string());
     }
-    rep.rule = format!("{n} histories per backend of 4-9 file-secret operations (create with random content, replace content, move between folders, delete secret, delete folder) on a real account (age/scrypt encryption): after every step blobs on disk vs FileReducer replay of the file log, blob name vs SHA-256 of its bytes, decryption vs original content, no blob without a live secret; plus uploads to a live server: correct, one flipped bit, truncated, empty, extended bodies (accept iff hash matches, nothing partial left)");
+    // two network devices and a live server: delete / move on one device, blobs everywhere after the transfers settled
+    for (k, action) in ["delete", "move", "enroll-later"].into_iter().enumerate() {
+        for j in 0..(if cli.tier == "thorough" { 3 } else { 1 }) {
+            if let Err(e) = rt.block_on(transfer_case(&mut rep, cli.seed.wrapping_mul(1_000_003).wrapping_add(700 + 10 * k as u64 + j), action)) {
+                rep.notes.push(format!("transfer case {action} aborted: {e}"));
+                rep.spec_fail("c17-harness-aborted", json!({"part": "transfer", "action": action}), &e.to_string());
+            }
+        }
+    }
+    rep.rule = format!("{n} histories per backend of 4-9 file-secret operations (create with random content, replace content, move between folders, delete secret, delete folder) on a real account (age/scrypt encryption): after every step blobs on disk vs FileReducer replay of the file log, blob name vs SHA-256 of its bytes, decryption vs original content, no blob without a live secret; plus uploads to a live server: correct, one flipped bit, truncated, empty, extended bodies (accept iff hash matches, nothing partial left), then move requests to another name / elsewhere / under the same name and a delete (every file the server holds must be named by its digest); plus two NetworkAccounts paired through a live server with real file transfers: a file secret made on the first device reaches the server and the second device, the first device deletes / moves it, everybody syncs, and after the transfers settled the blobs on both devices and the server are compared with the replay of the file log");
     rep.write(&cli.out);
 }
